@@ -836,7 +836,7 @@ func init() {
 	for _, w := range []string{"Int32", "Int64", "Uint32", "Uint64", "Uintptr"} {
 		w := w
 		intrinsics["sync/atomic::Add"+w] = func(f *frame, cc *ssa.CallCommon, args []Val, pc *Term, st State, resType types.Type) (Val, bool) {
-			cur := f.load(st, args[0])
+			cur := f.loadTyped(st, args[0])
 			t := cur.Typ
 			nv := f.c.arith(token.ADD, cur.T, args[1].T, t)
 			if f.c.mode == ModeInt {
@@ -849,19 +849,19 @@ func init() {
 			return Val{T: n, Typ: t}, true
 		}
 		intrinsics["sync/atomic::Load"+w] = func(f *frame, cc *ssa.CallCommon, args []Val, pc *Term, st State, resType types.Type) (Val, bool) {
-			return f.load(st, args[0]), true
+			return f.loadTyped(st, args[0]), true
 		}
 		intrinsics["sync/atomic::Store"+w] = func(f *frame, cc *ssa.CallCommon, args []Val, pc *Term, st State, resType types.Type) (Val, bool) {
 			f.store(st, args[0], args[1].T)
 			return Val{}, true
 		}
 		intrinsics["sync/atomic::Swap"+w] = func(f *frame, cc *ssa.CallCommon, args []Val, pc *Term, st State, resType types.Type) (Val, bool) {
-			cur := f.load(st, args[0])
+			cur := f.loadTyped(st, args[0])
 			f.store(st, args[0], args[1].T)
 			return cur, true
 		}
 		intrinsics["sync/atomic::CompareAndSwap"+w] = func(f *frame, cc *ssa.CallCommon, args []Val, pc *Term, st State, resType types.Type) (Val, bool) {
-			cur := f.load(st, args[0])
+			cur := f.loadTyped(st, args[0])
 			ok := Eq(cur.T, args[1].T)
 			okv := f.c.fresh("cas_ok", BoolSort)
 			f.c.addHyp(Eq(okv, ok))
@@ -872,21 +872,21 @@ func init() {
 		delete(intrinsics, "sync/atomic::And"+w)
 	}
 	intrinsics["sync/atomic::LoadPointer"] = func(f *frame, cc *ssa.CallCommon, args []Val, pc *Term, st State, resType types.Type) (Val, bool) {
-		return f.load(st, args[0]), true
+		return f.loadTyped(st, args[0]), true
 	}
 	intrinsics["sync/atomic::StorePointer"] = func(f *frame, cc *ssa.CallCommon, args []Val, pc *Term, st State, resType types.Type) (Val, bool) {
 		f.store(st, args[0], f.term(args[1]))
 		return Val{}, true
 	}
 	intrinsics["sync/atomic::CompareAndSwapPointer"] = func(f *frame, cc *ssa.CallCommon, args []Val, pc *Term, st State, resType types.Type) (Val, bool) {
-		cur := f.load(st, args[0])
+		cur := f.loadTyped(st, args[0])
 		okv := f.c.fresh("cas_ok", BoolSort)
 		f.c.addHyp(Eq(okv, Eq(cur.T, f.term(args[1]))))
 		f.store(st, args[0], Ite(okv, f.term(args[2]), cur.T))
 		return Val{T: okv, Typ: types.Typ[types.Bool]}, true
 	}
 	intrinsics["sync/atomic::SwapPointer"] = func(f *frame, cc *ssa.CallCommon, args []Val, pc *Term, st State, resType types.Type) (Val, bool) {
-		cur := f.load(st, args[0])
+		cur := f.loadTyped(st, args[0])
 		f.store(st, args[0], f.term(args[1]))
 		return cur, true
 	}
